@@ -1,11 +1,11 @@
 """C18 — the minimizer never leaves the box and reports what it actually reached;  C19 — each algorithm finds the
 box-constrained minimum of a convex quadratic.
 
-Model: Minim.v (hand model of the Levenberg / Levenberg-Marquardt drivers, unbounded and bounded; tie H) with the
-theorems of Properties_C18.v / Properties_C19.v; Gen_Minim.v (tie G) for the call-back arguments of all the drivers and
-of the line search.  The implementation is run in a LAPACK build on data-defined problems with an instrumented cost
+Models: Minim.v (Levenberg / Levenberg-Marquardt, unbounded and bounded), MinimCG.v (line search; conjugate gradient,
+unbounded and bounded), MinimLBFGS.v (bounded L-BFGS) - hand models, tie H - with the theorems of Properties_C18.v /
+Properties_C19.v; Gen_Minim.v (tie G) for the call-back arguments of all the bounded drivers and of the line search.  The implementation is run in a LAPACK build on data-defined problems with an instrumented cost
 function (every state passed to a call-back is checked against the box exactly; every call runs in a child process under
-an alarm).  For the Levenberg family the sequence of call-back states, status, counts, x, reported cost and norm are
+an alarm).  For every modelled driver the sequence of call-back states, status, counts, x, reported cost and norm are
 compared with the extracted model run on doubles."""
 import os, math, subprocess
 from fractions import Fraction
@@ -177,7 +177,8 @@ def c19_checks(run, runs, args, stats):
 
 
 def correspondence(run, runs, args, stats):
-    """Levenberg family: the extracted model on doubles against the implementation"""
+    """every run for which the harness printed a P line (Levenberg family; conjugate gradient; bounded L-BFGS): the extracted
+    model of that driver on doubles against the implementation"""
     model = os.path.join(C.OCAML, "driver_c18.exe")
     lm = [r for r in runs if r.get("P") and "status" in r and "E" in r]
     if not lm:
@@ -292,7 +293,7 @@ def check(run, replay=None, cid="C18"):
     cov = run.coverage
     cov["distinct_nontrivial"] = nruns
     cov["traces_validated_against_impl"] = stats["lm_runs"]
-    cov["correspondence"] = {"levenberg_runs_compared": stats["lm_runs"], "identical_decisions": stats["lm_same"], "identical_under_a_rounding_perturbation_of_solve": stats["lm_same_perturbed"],
+    cov["correspondence"] = {"runs_compared_with_the_extracted_model": stats["lm_runs"], "identical_decisions": stats["lm_same"], "identical_under_a_rounding_perturbation_of_solve": stats["lm_same_perturbed"],
                              "discarded_near_ties": stats["lm_near_tie"]}
     cov["input_distribution"] = dist
     cov["samples"] = [sample or {"note": "no sample"}]
@@ -309,9 +310,10 @@ def check(run, replay=None, cid="C18"):
                        "SUCCESS => gradient norm over components not pinned by sign <= threshold, iterations <= maximum, return within 10 s, statuses for invalid bounds / NaN cost."
                        if cid == "C18" else
                        "Checked per strictly convex quadratic with max_iterations=200: status SUCCESS, returned x within 2*threshold of the exact KKT point (active-set enumeration over the rationals), iterations <= 20n+50."))
-    run.assumptions += ["Minim.v is a hand model of the Levenberg / Levenberg-Marquardt drivers only; conjugate gradient, L-BFGS and the line search are tied through Gen_Minim.v (call-back arguments) and otherwise observed, not modelled",
+    run.assumptions += ["Minim.v, MinimCG.v, MinimLBFGS.v are hand models (tie = comparison of call-back sequences and results on every run); the unbounded L-BFGS driver is not modelled",
+                        "the feasibility theorems for conjugate gradient and L-BFGS assume that a line search entered without bounds (no component of the direction points to a finite bound) cannot leave the box",
                         "LAPACK's solve, the norm, the finiteness test and the user's functions are Section variables of the model; in the comparison they are an OCaml elimination, sqrt of a sum of squares, Float.is_finite and the harness's problems re-implemented in OCaml",
-                        "the comparison tolerates 1e-7 relative differences in states (different solver rounding) and retries under 12 rounding perturbations of solve before reporting a difference",
+                        "the comparison tolerates 1e-7 relative differences in states (different solver / summation rounding) and retries under 12 rounding perturbations (of solve for Levenberg, of the direction norm for CG / L-BFGS) before reporting a difference; decisions with a relative margin below 1e-9 (Levenberg) / 1e-6 (CG, L-BFGS) are near-ties",
                         "termination is observed (10 s alarm per call), not proved for floating point"]
     if cid == "C19":
         run.assumptions.append("'within an iteration budget proportional to the size' is explored with the budget 20n+50 on the generated quadratics (condition number below ~10), not proved")
